@@ -15,6 +15,7 @@ import (
 	"os"
 	"os/exec"
 	"strings"
+	"sync"
 	"time"
 )
 
@@ -110,14 +111,25 @@ type childProc struct {
 	stderr *tailBuf
 }
 
-type tailBuf struct{ b []byte }
+type tailBuf struct {
+	mu sync.Mutex
+	b  []byte
+}
 
 func (t *tailBuf) Write(p []byte) (int, error) {
+	t.mu.Lock()
+	defer t.mu.Unlock()
 	t.b = append(t.b, p...)
-	if len(t.b) > 4096 {
-		t.b = t.b[len(t.b)-4096:]
+	if len(t.b) > 16384 {
+		t.b = t.b[len(t.b)-16384:]
 	}
 	return len(p), nil
+}
+
+func (t *tailBuf) String() string {
+	t.mu.Lock()
+	defer t.mu.Unlock()
+	return string(t.b)
 }
 
 func startChild() (*childProc, error) {
@@ -238,14 +250,14 @@ func supervise(fam *family, in, out string, watchdog time.Duration) error {
 			select {
 			case r := <-ch:
 				if r.err != nil {
-					detail := string(cp.stderr.b)
+					detail := cp.stderr.String()
 					cp.kill()
 					cp = nil
 					outcome := "fatal"
 					if fam.crashed == nil {
 						return fmt.Errorf("child died: %s", detail)
 					}
-					emitCrash(fam.crashed(line, outcome, tail(detail, 600)))
+					emitCrash(fam.crashed(line, outcome, tail(detail, 3000)))
 				} else {
 					for _, l := range r.lines {
 						if len(l) > 2 && l[0] == 'S' && l[1] == '\t' {
@@ -260,13 +272,13 @@ func supervise(fam *family, in, out string, watchdog time.Duration) error {
 					}
 				}
 			case <-time.After(watchdog):
-				detail := string(cp.stderr.b)
+				detail := cp.stderr.String()
 				cp.kill()
 				cp = nil
 				if fam.crashed == nil {
 					return fmt.Errorf("child timed out: %s", detail)
 				}
-				emitCrash(fam.crashed(line, "timeout", tail(detail, 600)))
+				emitCrash(fam.crashed(line, "timeout", tail(detail, 3000)))
 			}
 		}
 		if rerr != nil {
